@@ -135,7 +135,8 @@ package fsm
 //@   ensures [C01.commit.keys] err == nil ==> forall k Bytes :: c.db.vP[k] == (k == IDX() || (k == LIDX() && c.leaderIndex != nil) ? true : old(c.batch.vP[k]))
 //@   ensures [C01.commit.vals] err == nil ==> forall k Bytes :: c.db.vV[k] == (k == IDX() ? le64(c.index) : (k == LIDX() && c.leaderIndex != nil ? le64(*c.leaderIndex) : old(c.batch.vV[k])))
 //@   ensures [C04.commit.atomic] err != nil ==> c.db.vP == old(c.db.vP) && c.db.vV == old(c.db.vV)
-//@   modifies c.batch.vP, c.batch.vV, c.db.vP, c.db.vV
+//@   ensures [C01.commit.once] c.db.ncommit == old(c.db.ncommit) + (err == nil ? 1 : 0)
+//@   modifies c.batch.vP, c.batch.vV, c.db.vP, c.db.vV, c.db.ncommit
 
 // parseCommand (contract taken from the property): the context's index is the entry's own index; the
 // leader index carried by the context is the one of the LAST entry that had one - an entry without a
@@ -175,11 +176,12 @@ package fsm
 // the listener installed by the table manager: ghost call log on the function value
 //@ ghostfield any.calls Int
 //@ ghostfield any.lastArg uint64
+//@ ghostfield any.atCommit Int
 //@ func appliedFuncContract
 //@   assumed
 //@   params idx
-//@   ensures self.calls == old(self.calls) + 1 && self.lastArg == idx
-//@   modifies self.calls, self.lastArg
+//@   ensures self.calls == old(self.calls) + 1 && self.lastArg == idx && self.atCommit == p.pebble.v.ncommit     // remembers how many commits the DB had seen when the listener ran
+//@   modifies self.calls, self.lastArg, self.atCommit
 
 // Update (dragonboat calls it single-threaded with a non-empty slice of entries).
 //@ func (*FSM).Update
@@ -191,10 +193,11 @@ package fsm
 //@   ensures [C03.lidx.none] err == nil && (forall j int :: 0 <= j && j < len(updates) ==> !hasLI(updates[j].Cmd)) ==> p.pebble.v.vP[LIDX()] == old(p.pebble.v.vP[LIDX()]) && p.pebble.v.vV[LIDX()] == old(p.pebble.v.vV[LIDX()]) && p.appliedFunc.lastArg == updates[len(updates)-1].Index
 //@   ensures [C03.lidx.last] err == nil ==> forall j int :: 0 <= j && j < len(updates) && hasLI(updates[j].Cmd) && (forall k int :: j < k && k < len(updates) ==> !hasLI(updates[k].Cmd)) ==> p.pebble.v.vP[LIDX()] && p.pebble.v.vV[LIDX()] == le64(liVal(updates[j].Cmd)) && p.appliedFunc.lastArg == liVal(updates[j].Cmd)
 //@   ensures [C11.notify]   err == nil ==> p.appliedFunc.calls == old(p.appliedFunc.calls) + 1
+//@   ensures [C11.notify.after] err == nil ==> p.appliedFunc.atCommit == old(p.pebble.v.ncommit) + 1       // the listener runs AFTER the batch is committed: the write is applied when the waiter is released
 //@   ensures [C02.atomic]   err != nil ==> p.pebble.v.vP == old(p.pebble.v.vP) && p.pebble.v.vV == old(p.pebble.v.vV) && p.appliedFunc.calls == old(p.appliedFunc.calls)
-//@   modifies elems(updates), p.pebble.v.vP, p.pebble.v.vV, p.appliedFunc.calls, p.appliedFunc.lastArg
+//@   modifies elems(updates), p.pebble.v.vP, p.pebble.v.vV, p.pebble.v.ncommit, p.appliedFunc.calls, p.appliedFunc.lastArg, p.appliedFunc.atCommit
 //@   loop 0 invariant 0 <= i && i <= len(updates) && ctx != nil && ctx.batch != nil && ctx.db == p.pebble.v && ctx.batch.bdb == ctx.db && ctx.batch != ctx.db && fresh(ctx) && fresh(ctx.batch)
-//@   loop 0 invariant p.pebble.v.vP == old(p.pebble.v.vP) && p.pebble.v.vV == old(p.pebble.v.vV) && p.appliedFunc.calls == old(p.appliedFunc.calls)
+//@   loop 0 invariant p.pebble.v.vP == old(p.pebble.v.vP) && p.pebble.v.vV == old(p.pebble.v.vV) && p.appliedFunc.calls == old(p.appliedFunc.calls) && p.pebble.v.ncommit == old(p.pebble.v.ncommit)
 //@   loop 0 invariant i > 0 ==> ctx.index == updates[i-1].Index && idx == updates[i-1].Index
 //@   loop 0 invariant [C01.book] bookSame(ctx.batch.vP, ctx.batch.vV, p.pebble.v.vP, p.pebble.v.vV)
 //@   loop 0 invariant forall j int :: 0 <= j && j < len(updates) ==> updates[j].Index == old(updates[j].Index) && updates[j].Cmd == old(updates[j].Cmd)
